@@ -24,6 +24,10 @@ func c17Offset(v *big.Int, k string) *big.Int {
 		kk = big.NewInt(2)
 	case "2^64":
 		kk = pow2(64)
+	case "2^20":
+		kk = pow2(20)
+	case "max144":
+		kk = new(big.Int).Sub(pow2(144), big.NewInt(1))
 	case "max":
 		// largest k with v + k*p < r
 		kk = new(big.Int).Sub(bigR, big.NewInt(1))
